@@ -53,4 +53,14 @@ theorem source_multimedia_upload (fuel : Nat) (t : model_T0x0801) (j : jt808_JTM
     (j.Body.length < 36 → model_T0x0801_Parse fuel t j = .ok (t, some "ErrBodyLengthInconsistency")) :=
   ⟨fun h => T0x0801_Parse_eq fuel t j h hf, fun h => T0x0801_Parse_short fuel t j h⟩
 
+/-- Non-vacuity: the translated parser run by the kernel on a concrete block — alarm word 0x00000003 (emergency alarm and
+over-speed), status word 0x00040003 (ACC, positioned, GPS), latitude 0x01C9C380, time 24-10-01 12:30:45. -/
+example : (match model_T0x0200LocationItem_parse 10 model_T0x0200LocationItem.zero
+      [0, 0, 0, 3, 0, 4, 0, 3, 0x01, 0xC9, 0xC3, 0x80, 0x06, 0xF1, 0x5F, 0x20, 0, 100, 0, 60, 0, 90, 0x24, 0x10, 0x01, 0x12, 0x30, 0x45] with
+    | .ok (l, e) => (l.Latitude, l.Speed, l.AlarmSignDetails.EmergencyAlarm, l.AlarmSignDetails.OverSpeed, l.AlarmSignDetails.FatigueDriving,
+        l.StatusSignDetails.ACC, l.StatusSignDetails.UseGPS, l.StatusSignDetails.South, l.DateTime, e)
+    | _ => ((0 : UInt32), (0 : UInt16), false, false, false, false, false, false, ([] : Bytes), (some "x" : GoErr))) =
+    ((0x01C9C380 : UInt32), (60 : UInt16), true, true, false, true, true, false,
+      ([50, 48, 50, 52, 45, 49, 48, 45, 48, 49, 32, 49, 50, 58, 51, 48, 58, 52, 53] : Bytes), (none : GoErr)) := by rfl
+
 end JT.C08
